@@ -657,6 +657,7 @@ def m_vec_insert(e, st, a, ctx):
 
 
 def item_eq(e, st, x, y):
+    if x is None or x is POISON or y is None or y is POISON: return False      # cell that no feasible path fills
     x = val(e, st, x) if isinstance(x, (P, PV)) else x
     y = val(e, st, y) if isinstance(y, (P, PV)) else y
     if isinstance(x, S) and isinstance(y, S): return str_eq(x, y)
@@ -1021,12 +1022,29 @@ def m_map_get(e, st, a, ctx):
     return E(OPTION, zite(found, 1, 0), {0: [], 1: [PV(value)]})
 
 
+def ptr_alts(p):
+    """a pointer value as a list of guarded place pointers"""
+    if isinstance(p, P): return [(True, p)]
+    if isinstance(p, U):
+        out = []
+        for c, x in p.alts:
+            for c2, y in ptr_alts(x): out.append((zand(c, c2), y))
+        return out
+    raise Abort('expected a place pointer, got %r' % (p,))
+
+
 @model(r'std::collections::HashMap::<.*>::get_mut::<.*>')
 def m_map_get_mut(e, st, a, ctx):
-    mv = as_map(e, st, a[0]); p = a[0]
-    if not isinstance(p, P): raise Abort('get_mut through non-place pointer')
-    found, value, hits = map_lookup(e, st, mv, a[1])
-    alts = [(c, P(p.fid, p.loc, p.proj + (('m', i),))) for i, c in enumerate(hits) if c is not False]
+    alts = []; found = False
+    for c0, p in ptr_alts(a[0]):
+        mv = e.read(st, ('mem', p.fid, p.loc, list(p.proj)))
+        if isinstance(mv, U) or not isinstance(mv, M): mv = as_map(e, st, p)
+        f, value, hits = map_lookup(e, st, mv, a[1])
+        for i, c in enumerate(hits):
+            cc = simp(zand(c0, c))
+            if cc is not False: alts.append((cc, P(p.fid, p.loc, p.proj + (('m', i),))))
+        found = zor(found, zand(c0, f))
+    found = simp(found)
     if not alts: return none()
     ptr = alts[0][1] if len(alts) == 1 else U(alts)
     return E(OPTION, zite(found, 1, 0), {0: [], 1: [ptr]})
@@ -1457,7 +1475,10 @@ def materialise(e, st, it):
         return V(max(0, hi - lo), list(range(lo, hi)))
     if ty == 'iter::Map':
         mv, idx, kind, byref = it.f
-        raise Abort('materialise of a map iterator')
+        if idx != 0: raise Abort('materialise advanced map iterator')
+        wrap = (lambda x: PV(x) if not isinstance(x, (P, PV)) else x) if byref else (lambda x: x)
+        cells = [(T([wrap(k), wrap(v)]) if kind == 'pairs' else wrap(k)) for p, k, v in mv.ents]
+        return compact(V(len(cells), cells), [p for p, k, v in mv.ents])
     raise Abort('materialise: unknown iterator ' + str(ty))
 
 
@@ -1474,6 +1495,7 @@ def map_cells(e, st, v, clo, wrap=lambda x: [x]):
 
 
 ITER = r'<(std|core)::(iter|str|slice|vec|ops|collections::\w+)::[\w:]+(<.*>)? as std::iter::Iterator>'
+# (hash_map::Values etc. are produced already materialised)
 
 
 @model(ITER + r'::map::<.*>')
@@ -1825,3 +1847,93 @@ def m_opt_replace(e, st, a, ctx):
 def m_first(e, st, a, ctx):
     v = as_vec(e, st, a[0])
     return opt(simp(v.len > 0), PV(v.it[0] if v.it else POISON))
+
+
+@model(r'core::str::<impl str>::strip_prefix::<.*>', r'core::str::<impl str>::strip_suffix::<.*>')
+def m_strip_prefix(e, st, a, ctx):
+    sv = as_str(e, st, a[0]); p = pat_str(e, st, a[1])
+    if 'strip_prefix' in ctx[0]:
+        c = simp(match_at(sv, p, 0))
+        return opt(c, str_sub(sv, p.len, sv.len))
+    c = m_ends_with2(e, st, a, ctx)
+    return opt(c, str_sub(sv, 0, sv.len - p.len))
+
+
+@model(r'core::str::<impl str>::trim_start_matches::<.*>', r'core::str::<impl str>::trim_end_matches::<.*>', r'core::str::<impl str>::trim_matches::<.*>')
+def m_trim_matches(e, st, a, ctx):
+    sv = as_str(e, st, a[0]); p = pat_str(e, st, a[1])
+    pc = str_concrete(p)
+    if pc is None or len(pc) != 1: raise Abort('trim_matches with a symbolic or multi-char pattern')
+    code = ord(pc); n = len(sv.ch)
+    start = 0; end = sv.len
+    if 'trim_end' not in ctx[0]:
+        start = sv.len
+        for i in range(n - 1, -1, -1): start = zite(zand(i < sv.len, znot(zeq(sv.ch[i], code))), i, start)
+    if 'trim_start' not in ctx[0]:
+        end = start if 'trim_end' not in ctx[0] else 0
+        for i in range(n): end = zite(zand(i < sv.len, znot(zeq(sv.ch[i], code))), i + 1, end)
+    return str_sub(sv, simp(start), simp(end))
+
+
+@model(ITER + r'::filter_map::<.*>')
+def m_iter_filter_map(e, st, a, ctx):
+    v = materialise(e, st, a[0])
+    outs = map_cells(e, st, v, a[1])        # Option<T> per cell
+    keep = []; vals = []
+    for o in outs:
+        if o is None or o is POISON or not isinstance(o, E): keep.append(False); vals.append(None); continue
+        keep.append(simp(zeq(o.d, 1))); vals.append(o.p[1][0] if 1 in o.p else None)
+    return mat_iter(compact(V(v.len, vals), keep))
+
+
+@model(ITER + r'::flat_map::<.*>', ITER + r'::flatten')
+def m_iter_flat_unsupported(e, st, a, ctx): raise Abort('unmodelled iterator adapter: ' + ctx[0][:80])
+
+
+@model(ITER + r'::cloned', ITER + r'::copied', ITER + r'::by_ref', ITER + r'::peekable', ITER + r'::fuse')
+def m_iter_cloned(e, st, a, ctx):
+    v = materialise(e, st, a[0])
+    return mat_iter(V(v.len, [val(e, st, x) if isinstance(x, (P, PV)) else x for x in v.it]))
+
+
+@model(ITER + r'::for_each::<.*>')
+def m_iter_for_each(e, st, a, ctx):
+    v = materialise(e, st, a[0]); map_cells(e, st, v, a[1]); return UNIT
+
+
+@model(ITER + r'::find::<.*>')
+def m_iter_find(e, st, a, ctx):
+    v = materialise(e, st, a[0])
+    flags = map_cells(e, st, v, a[1], wrap=lambda x: [PV(x)])
+    found = False; item = POISON
+    for i in range(len(flags) - 1, -1, -1):
+        if flags[i] is None: continue
+        c = simp(zand(i < v.len, flags[i])); item = v.it[i] if found is False else merge(c, v.it[i], item); found = zor(found, c)
+    return opt(simp(found), item)
+
+
+@model(ITER + r'::nth', ITER + r'::next_placeholder')
+def m_iter_nth(e, st, a, ctx):
+    it = e.deref(st, a[0]) if isinstance(a[0], (P, PV)) else a[0]
+    v = materialise(e, st, it); n = a[1]
+    return opt(simp(n < v.len), sel(v.it, n, POISON))
+
+
+@model(r'std::collections::HashMap::<.*>::values', r'std::collections::HashMap::<.*>::into_values', r'std::collections::HashMap::<.*>::values_mut')
+def m_map_values(e, st, a, ctx):
+    mv = as_map(e, st, a[0])
+    byref = not ctx[0].endswith('into_values')
+    cells = [(PV(v) if byref and not isinstance(v, (P, PV)) else v) for p, k, v in mv.ents]
+    return mat_iter(compact(V(len(cells), cells), [p for p, k, v in mv.ents]))
+
+
+@model(r'<std::collections::hash_map::(Values|IntoValues|ValuesMut|IntoKeys)<.*> as std::iter::Iterator>::next', r'<std::collections::hash_map::(Values|IntoValues|IntoKeys)<.*> as std::iter::IntoIterator>::into_iter')
+def m_map_values_next(e, st, a, ctx):
+    if ctx[0].endswith('into_iter'): return a[0]
+    return m_vec_iter_next(e, st, a, ctx)
+
+
+@model(r'std::collections::HashMap::<.*>::into_keys')
+def m_map_into_keys(e, st, a, ctx):
+    mv = as_map(e, st, a[0])
+    return mat_iter(compact(V(len(mv.ents), [k for p, k, v in mv.ents]), [p for p, k, v in mv.ents]))
